@@ -343,3 +343,19 @@ def threaded_unwraps(rng, nthreads=8, per_thread=60):
                              "input": {"kbpk": kbpk.hex(), "string": blk, "history": "%d threads, each unwrapping with its own KBPK" % nthreads},
                              "expected": "PsecError" if want is None else core.show(want), "observed": [str(x)[:80] for x in r]})
     return viol, nthreads * per_thread
+
+
+def reference_block(rng, c, kbpk=None, **choice):
+    """a key block for case c produced by the INDEPENDENT reference (harness/oracles.py) with the given encoding
+    freedoms (pad-block filler / position / extended form, hex case, extended lengths ...); None when it does not fit"""
+    from harness import oracles as o
+    h = impl_header(c)
+    f = {"version_id": h.version_id, "key_usage": h.key_usage, "algorithm": h.algorithm, "mode_of_use": h.mode_of_use,
+         "version_num": h.version_num, "exportability": h.exportability, "reserved": h.reserved}
+    bs = BS[c["version"]]
+    padlen = (-(2 + len(c["key"]))) % bs + bs * rng.choice([0, 1])
+    try:
+        kb = o.tr31_wrap(kbpk or c["kbpk"], f, list(h.blocks.items()), c["key"], rng.randbytes(padlen), **choice)
+    except AssertionError:
+        return None
+    return kb if len(kb) <= 9999 else None
